@@ -5,6 +5,7 @@ from __future__ import annotations
 import copy
 
 from .core import outcome, octs, after_pack, rxbuf, decoded, scramble, owned, enum_arg
+from .probe import fresh
 from .probe import decode_other, poison, twin
 
 KIND_ORDER = ["eof", "finished", "ack", "metadata", "nak", "prompt", "keepalive", "filedata"]
@@ -323,7 +324,7 @@ def op_cfdphdr_rt(a):
         raw = owned(o.pack)
 
         def rest():
-            d = PduHeader.unpack(rxbuf(raw, a["sfx"]))
+            d = fresh(lambda: PduHeader.unpack(rxbuf(raw, a["sfx"])))
             decode_other("cfdphdr", PduHeader.unpack)
             return {"octets": octs(raw), "hlen": o.header_len, "plen": o.packet_len, "cfglen": cfglen,
                     "rawlen": AbstractPduBase.header_len_from_raw(bytes(raw)), "dec": proj_hdr(d), "dhlen": d.header_len,
@@ -343,7 +344,7 @@ def op_cfdphdr_unpack(a):
     from spacepackets.cfdp.pdu.header import PduHeader
 
     def run():
-        d = decoded(lambda: PduHeader.unpack(bytes(a["octets"])))
+        d = decoded(lambda: fresh(lambda: PduHeader.unpack(bytes(a["octets"]))))
         return {"h": proj_hdr(d), "hlen": d.header_len, "repack": octs(d.pack())}
     return outcome(run)
 
@@ -356,7 +357,7 @@ def op_lv_rt(a):
         raw = owned(o.pack)
 
         def rest():
-            d = CfdpLv.unpack(rxbuf(raw, a["sfx"]))
+            d = fresh(lambda: CfdpLv.unpack(rxbuf(raw, a["sfx"])))
             scramble()
             return {"octets": octs(raw), "plen": o.packet_len, "dec": octs(d.value), "dplen": d.packet_len}
         return after_pack(raw, rest)
@@ -367,7 +368,7 @@ def op_lv_unpack(a):
     from spacepackets.cfdp.lv import CfdpLv
 
     def run():
-        d = decoded(lambda: CfdpLv.unpack(bytes(a["octets"])))
+        d = decoded(lambda: fresh(lambda: CfdpLv.unpack(bytes(a["octets"]))))
         return {"v": octs(d.value), "plen": d.packet_len}
     return outcome(run)
 
@@ -381,7 +382,7 @@ def op_tlv_rt(a):
         raw = owned(o.pack)
 
         def rest():
-            d = CfdpTlv.unpack(rxbuf(raw, a["sfx"]))
+            d = fresh(lambda: CfdpTlv.unpack(rxbuf(raw, a["sfx"])))
             decode_other("tlv", CfdpTlv.unpack)
             return {"octets": octs(raw), "plen": o.packet_len, "dec": {"t": int(d.tlv_type), "v": octs(d.value)},
                     "dplen": d.packet_len, "eq": bool(d == o)}
@@ -393,7 +394,7 @@ def op_tlv_unpack(a):
     from spacepackets.cfdp.tlv import CfdpTlv
 
     def run():
-        d = decoded(lambda: CfdpTlv.unpack(bytes(a["octets"])))
+        d = decoded(lambda: fresh(lambda: CfdpTlv.unpack(bytes(a["octets"]))))
         return {"tlv": {"t": int(d.tlv_type), "v": octs(d.value)}, "plen": d.packet_len}
     return outcome(run)
 
@@ -472,7 +473,7 @@ def _ctlv_rt_body(a, o):
         raw = owned(o.pack)
 
         def rest():
-            d = _via(a["cls"], rxbuf(raw, a["sfx"]), a.get("via", "unpack"))
+            d = fresh(lambda: _via(a["cls"], rxbuf(raw, a["sfx"]), a.get("via", "unpack")))
             decode_other("ctlv:" + a["cls"], lambda b: _via(a["cls"], b, a.get("via", "unpack")))
             if type(d) is not ctlv_class(a["cls"]):
                 return {"wrongclass": type(d).__name__}
@@ -493,7 +494,7 @@ def _ctlv_rt_body(a, o):
 
 def op_ctlv_unpack(a):
     def run():
-        d = decoded(lambda: _via(a["cls"], a["octets"], a.get("via", "unpack")))
+        d = decoded(lambda: fresh(lambda: _via(a["cls"], a["octets"], a.get("via", "unpack"))))
         out = {"p": proj_ctlv(a["cls"], d), "plen": d.packet_len}
         if len(d.pack()) != d.packet_len:           # "reports its packed length correctly" also for a decoded object
             out["repack_len"] = len(d.pack())
@@ -544,7 +545,7 @@ def op_pdu_rt(a):
 
     def rest(obj, conf, params, snap, plen, dflen, hlen, raw):
         caller = _snapshot(conf, params) == snap
-        d = pdu_class(a["kind"]).unpack(rxbuf(raw, a["sfx"]))
+        d = fresh(lambda: pdu_class(a["kind"]).unpack(rxbuf(raw, a["sfx"])))
         decode_other("pdu:" + a["kind"], pdu_class(a["kind"]).unpack)
         rebuilt = outcome(lambda: octs(rebuild_pdu(a["kind"], d).pack()))
         return {"octets": octs(raw), "plen": plen, "dflen": dflen, "hlen": hlen, "dec": proj_pdu(d),
@@ -580,7 +581,7 @@ def op_pdu_fac(a):
     def rest(obj, raw):
         from spacepackets.cfdp.pdu.helper import PduFactory
         buf = rxbuf(raw, a["sfx"])
-        d = PduFactory.from_raw(buf)
+        d = fresh(lambda: PduFactory.from_raw(buf))
         if d is None:
             return {"cls": "none"}
         h = PduFactory.from_raw_to_holder(buf)
@@ -601,7 +602,7 @@ def op_pdu_unpack(a):
 
     def run():
         buf = bytes(a["octets"])
-        d = decoded(lambda: PduFactory.from_raw(buf) if a["want"] == "any" else pdu_class(a["want"]).unpack(buf))
+        d = decoded(lambda: fresh(lambda: PduFactory.from_raw(buf) if a["want"] == "any" else pdu_class(a["want"]).unpack(buf)))
         if d is None:
             return {"exc": "value"}        # the factory's documented "not a known directive" answer
         return {"pdu": proj_pdu(d), "plen": d.packet_len}
